@@ -42,8 +42,9 @@ class LUTState:
 
     def get_equivalent(self, lut_tens):
         # Returns existing lut with the same values, None if not found
+        # (np.array_equal does not see the element width: equal numbers in 8 and in 32 bit are different tables)
         for t in self.tensors:
-            if np.array_equal(t.values, lut_tens.values):
+            if t.storage_size() == lut_tens.storage_size() and np.array_equal(t.values, lut_tens.values):
                 return t
         return None
 
